@@ -24,6 +24,7 @@ const (
 	aNilExe             // returns neither an execution nor an error
 	aFailInPlace        // deletes a binding from the map it was given, then fails, returning that map
 	aBareExe            // returns an Execution built by hand (&Execution{Bs: ...}: no Events inside)
+	aAcceptIf           // a selective guard: returns the bindings it was given iff they bind ?x to val, otherwise none
 	aKinds
 )
 
@@ -104,6 +105,8 @@ func newStubSized(name string, allowed []int, maxEmits int, pooled bool, small b
 			s.key = anyName(name+".key", names)
 		case aReplace:
 			s.repl = match.Bindings{"r": 1.0}
+		case aAcceptIf:
+			s.val = verif.AnyString(name + ".accepts")
 		}
 		if maxEmits > 0 {
 			s.emits = verif.Choose(name+".emits", maxEmits+1)
@@ -163,6 +166,12 @@ func (s *stubSpec) action(log *stubLog) Action {
 			delete(in, s.key)
 			exe = NewExecution(in)
 			err = errors.New("stub " + s.name + " failed")
+		case aAcceptIf:
+			if x, have := in["?x"]; have && x == s.val {
+				exe = NewExecution(in)
+			} else {
+				exe = NewExecution(nil)
+			}
 		case aBareExe:
 			// an action written without the constructor: nothing to record events in, and nothing emitted
 			return &Execution{Bs: in.Copy()}, nil
@@ -208,6 +217,11 @@ func (s *stubSpec) rawOutcome(in match.Bindings) (bs match.Bindings, haveExe boo
 		return in.Copy(), true, true
 	case aNilBs:
 		return nil, true, false
+	case aAcceptIf:
+		if x, have := in["?x"]; have && x == s.val {
+			return in.Copy(), true, false
+		}
+		return nil, true, false
 	case aFailInPlace:
 		out := in.Copy()
 		delete(out, s.key)
@@ -239,6 +253,7 @@ type specOpts struct {
 	patDepth      int
 	patWidth      int
 	withGuards    bool
+	multi         bool // patMode 1 offers only patterns that match in several ways: ["?x"] and {"a":["?x"]}
 	withInvalid   bool // the vocabulary also offers a pattern the matcher rejects with an error
 	noLog         bool // stubs do not record their calls
 	small         bool // stub parameters from the smallest pools
@@ -303,20 +318,29 @@ func buildSpec(o specOpts) *builtSpec {
 				if o.withInvalid {
 					nv = 7
 				}
-				switch verif.Choose(name+".vocab", nv) {
-				case 0:
-				case 1:
-					br.Pattern = "?x"
-				case 2:
-					br.Pattern = map[string]interface{}{"a": "?x"}
-				case 3:
-					br.Pattern = map[string]interface{}{"a": verif.AnyJSON(name+".const", verif.Opts{Depth: 0, Finite: true, NoVar: true})}
-				case 4:
-					br.Pattern = map[string]interface{}{"b": "?y", "a": "?x"}
-				case 5:
-					br.Pattern = map[string]interface{}{"a": "?<n"} // inequality against a bound number
-				default:
-					br.Pattern = map[string]interface{}{"?v": 1.0, "a": 2.0} // property variable with other keys: an error
+				if o.multi {
+					// an array pattern with a variable has one candidate per element of the message's array
+					if verif.Choose(name+".vocab", 2) == 0 {
+						br.Pattern = []interface{}{"?x"}
+					} else {
+						br.Pattern = map[string]interface{}{"a": []interface{}{"?x"}}
+					}
+				} else {
+					switch verif.Choose(name+".vocab", nv) {
+					case 0:
+					case 1:
+						br.Pattern = "?x"
+					case 2:
+						br.Pattern = map[string]interface{}{"a": "?x"}
+					case 3:
+						br.Pattern = map[string]interface{}{"a": verif.AnyJSON(name+".const", verif.Opts{Depth: 0, Finite: true, NoVar: true})}
+					case 4:
+						br.Pattern = map[string]interface{}{"b": "?y", "a": "?x"}
+					case 5:
+						br.Pattern = map[string]interface{}{"a": "?<n"} // inequality against a bound number
+					default:
+						br.Pattern = map[string]interface{}{"?v": 1.0, "a": 2.0} // property variable with other keys: an error
+					}
 				}
 			} else if verif.Choose(name+".hasPattern", 2) == 1 {
 				po := verif.Opts{Depth: o.patDepth, Width: o.patWidth, Nodes: 3, Finite: true}
